@@ -28,7 +28,7 @@ ASSUMPTIONS = [
     "only non-negative charge is added (the statement is about non-negative charge)",
 ]
 COMPONENTS = {"real": ["pyxel.data_structure.Charge (pandas frame, numba binning)", "Geometry"], "stub": []}
-BUDGET = {"quick": {"n": 1600, "wall": 100, "determinism": 4}, "thorough": {"n": 600000, "wall": 1500, "determinism": 12}}
+BUDGET = {"quick": {"n": 1600, "wall": 100, "determinism": 4}, "thorough": {"n": 1400000, "wall": 1500, "determinism": 12}}
 REQUIRED_REACH = ["op:add_array", "op:add_clusters", "op:add_dataframe", "op:read", "op:remove", "op:reset", "pos:border", "pos:edge", "pos:negative", "pos:beyond", "array_after_clusters", "clusters_after_array", "op:resize", "resize_after_mixed_use", "duplicated"]
 
 POS = ("inside", "inside", "inside", "border", "edge", "negative", "beyond")
